@@ -68,7 +68,7 @@ def poo_cfgs(tier, base_id, patterns=("g", "neg", "tied", "peak")):
         box = rnd.choice([b for b in PC.BOXES if len(b) == D])
         i += 1
         q = sorted(rnd.sample(range(n), 3)) if rep % 3 == 0 else []
-        cfgs.append({"id": i, "algo": "POO", "kind": kind, "K": Kk, "D": D, "box": box, "n": n, "T": n, "prm": {"rhomax": rhomax, "numax": rnd.choice([1, 0.5, 2.5]), "base": rnd.choice(["T_HOO", "HCT", "VHCT"])}, "pattern": rnd.choice(patterns), "seed": rnd.randrange(1 << 30), "queries": q})
+        cfgs.append({"id": i, "algo": "POO", "kind": kind, "K": Kk, "D": D, "box": box, "n": n, "T": n, "prm": {"rhomax": rhomax, "numax": rnd.choice([1, 0.5, 2.5]), "base": rnd.choice(["T_HOO", "HCT", "VHCT"])}, "pattern": rnd.choice(patterns), "seed": rnd.randrange(1 << 30), "queries": q, "midq": sorted(rnd.sample(range(n), 4)) if rep % 4 == 1 else []})
     return cfgs
 
 
